@@ -13,6 +13,36 @@
    compile.  Baseline (without) must equal Base, otherwise the check cannot decide (exit 2).
 3. Every run's hook trace + the observed projections are validated by TLC against spec/ReplaceTypeTrace.tla,
    where the CONTRACT operators (not Python) decide acceptance; TLC and Python must agree.
+
+COVERAGE TABLE (statement clause / quantifier dimension -> what explores it -> what is still a single point or absent)
+  "named type (package path + name)"      -> key (orig, T) / alias key (orig, TA) / local key (src, K); look-alikes that must stay:
+                                             other spelling (alias<->named), alias in a third package, same NAME in another package
+                                             (also with the same package NAME, also itself mapped), TYPE PARAMETER with that name.
+                                             Single point: alias of an alias, dot-imported / vendored paths.
+  "every method parameter or result"      -> param, result, both, unnamed, two positions, param named like the qualifier, methods coming
+                                             from an EMBEDDED interface of another package.  Nested (ptr, slice, map, chan, func,
+                                             variadic element, type argument): accepted either way.  Absent: embedded interface of the
+                                             same package, array / struct-field / interface-method-literal nesting.
+  "rendered with the replacement type"    -> Accept (TLA+) on names + the NATIVE TWIN differential on everything templates derive from the
+                                             type; kinds struct/basic/interface -> struct/interface/map/alias-of-pointer; template-data
+                                             options (stub-impl, with-resets, unroll-variadic) as a spelling dimension.
+                                             Absent: generic / instantiated-generic replacement types (semantics open), channel/func kinds.
+  "replacement's package is imported"     -> targets: other package, alias, package with the original's NAME (qualifier collision), the
+                                             mock's own destination package (in-package and separate), the ORIGINAL's own package.
+  "original imported only if still used"  -> other uses: none, other param (before/after), other method, other interface, embedded;
+                                             probe (.Imports exact) + gofmt/noop (unused import = type error); entries for types that
+                                             occur nowhere (no effect, target not imported).
+  "all others rendered as without"        -> differential without/with; unrelated method Z, second interface, second configs entry,
+                                             sibling / child / parent packages (no-leak family, recursive + listed sub-package).
+  "result still compiles"                 -> source type-check of both trees (go/packages), three formatters.
+  "at whichever level it is written"      -> root, package, interface, configs entry, second of two entries; two targets for two mocks in
+                                             one file (entries / interfaces, both orders); the same type at two levels of one chain
+                                             (package<interface, top<entry: most specific wins); listed vs. unlisted interfaces; no-leak
+                                             family over {top, recursive parent, sub-package, sibling} x {T, U}.
+                                             Absent: env / flag sources for replace-type, more than one mapping per level in family 1
+                                             beyond the twin entry, interfaces-level leaks inside one package with 2+ mapped types.
+  placements / templates                  -> separate, in-package; testify, matryer, probe.  Absent: _test placements (see C17), custom
+                                             structname templates, several output files per run sharing a registry (there is one per file).
 """
 import concurrent.futures as cf
 import json
